@@ -94,13 +94,13 @@ def ext(t, body):
     return struct.pack("!HH", t, len(body)) + body
 
 
-def client_hello(rng, client_random, offered, grease_quic_bit=False, sid=b""):
+def client_hello(rng, client_random, offered, grease_quic_bit=False, sid=b"", alpn=(b"h3",)):
     suites = b"".join(struct.pack("!H", c) for c in offered)
     tp = b"\x01\x02\x67\x10" + b"\x04\x04\x80\x10\x00\x00" + b"\x0f\x00"
     if grease_quic_bit:
         tp += b"\x6a\xb2\x00"
     exts = [ext(0, struct.pack("!HBH", 14, 0, 11) + b"example.com"), ext(10, b"\x00\x04\x00\x1d\x00\x17"),
-            ext(16, b"\x00\x03\x02h3"), ext(13, b"\x00\x04\x04\x03\x08\x04"),
+            ext(16, (lambda l: struct.pack("!H", len(l)) + l)(b"".join(bytes([len(a)]) + a for a in alpn))), ext(13, b"\x00\x04\x04\x03\x08\x04"),
             ext(51, struct.pack("!HHH", 36, 0x1d, 32) + rng.randbytes(32)), ext(45, b"\x01\x01"),
             ext(43, b"\x02\x03\x04"), ext(57, tp)]
     e = b"".join(exts)
@@ -139,7 +139,7 @@ class Dgram:
 DEFAULT = {
     "suite": 0x1301, "offered": None, "ccid_len": 8, "scid_len": 8, "odcid_len": 8,
     "pn_len": 2, "pn_start": 0, "pn_gap": 1, "coalesce": "separate", "retry": False, "zero_rtt": False,
-    "ch_split": None, "ncid": None, "grease": False, "token": b"", "retry_token_len": None,
+    "ch_split": None, "ncid": None, "grease": False, "token": b"", "retry_token_len": None, "alpn": None, "vn": False,
     "script": [("c", [(0, 100)]), ("s", [(0, 300)]), ("c", [(4, 50)]), ("s", [(0, 20)])],
     "before": (), "after": (), "stream_flags": None, "early_secret_in_log": None, "sh_split": None, "tail": None,
 }
@@ -254,7 +254,7 @@ class Conn:
         s = self.scn
         rng = self.rng
         offered = s["offered"] or [self.suite, 0x1302 if self.suite != 0x1302 else 0x1301]
-        ch = client_hello(rng, self.client_random, offered, s["grease"])
+        ch = client_hello(rng, self.client_random, offered, s["grease"], alpn=tuple(s.get("alpn") or (b"h3",)))
         sh = server_hello(rng, self.server_random, s.get("wire_suite") or self.suite)
         sf = server_flight(rng, self.hl)
         cfin = hs_msg(20, rng.randbytes(self.hl))
@@ -289,6 +289,12 @@ class Conn:
             self.set_initial_keys(rscid)
             self.token = tok
         client_initials()
+        if s.get("vn"):
+            # a Version Negotiation datagram from the server's address right after the client's Initial (a client that offered
+            # version 1 ignores it, RFC 9000 6.2); it carries no packet number and no protected payload
+            vn = bytes([0xCA]) + bytes(4) + bytes([len(self.ccid)]) + self.ccid + bytes([len(self.dcid_for["c"])]) + self.dcid_for["c"] + \
+                bytes.fromhex("00000001") + bytes.fromhex("6b3343cf") + bytes.fromhex("1a2a3a4a")
+            self.dgram("s", [vn], tag="vn")
         if s["zero_rtt"]:
             fr, data = self.stream_frames([(0, 77)])
             self.dgram("c", [self.long_pkt(1, "c", fr)], stream=data, tag="0rtt")
